@@ -198,6 +198,10 @@ class C02Hook:
         for sig, detail in info.get('isolation_failures', []):
             if sig == 'rejected-call-changed-transaction':
                 self.ctx.count('note:' + sig)
+            elif sig == 'late-write-changed-mdib':
+                # the application wrote into what it had been handed after the transaction was over and the published content
+                # changed with it: no transaction, no version counter moved
+                self.ctx.fail('content-changed-without-version-increase', detail, {'history': list(history), 'mdib': w.mdib_path})
         if info['outcome'] == 'commit-failed':
             # no clause of C02 by itself; C03 owns it. It is recorded so that the distribution is visible.
             self.ctx.count('commit-failed:' + str(info['error'])[:60])
